@@ -99,6 +99,14 @@ P.update({
             '(same points, energies and evaluation sequence), all ten DE strategies (components are parent or base+F*differences of distinct partners, crossover rule), '
             'strictly-lower selection.', 'DESIGN.md#c08', ''),
 })
+P.update({
+    'C09': (True, 'model_checking',
+            'Kernels of the ensemble solvers on the real code: the reduction (__update_bestSolver/__update_state) over 1-4 real member solvers with solver-chosen '
+            'energies, solutions and counters, two rounds (step mode): ensemble best = minimum over members, solution = that member\'s, total evaluations = sum; '
+            'LatticeSolver._InitialPoints (tuple and integer bins, symbolic box): exactly prod(bins) points, each the centre of its own cell, inside the ranges; '
+            'Buckshot/samplepts inside the ranges; gridpts = full Cartesian product; randomly_bin: product N, length ndim.', 'DESIGN.md#c09',
+            'NOT CLAIMED: whole lattice/buckshot/sparsity solves, member configuration transfer, fillpts (unbounded loops over symbolic state).'),
+})
 
 NOT_YET = 'check not built yet in this round (planned: DESIGN.md section 4)'
 
